@@ -10,6 +10,7 @@ in related states.
 -/
 import NadaVerif.Trace
 import NadaVerif.Lemmas.TraceStored
+import NadaVerif.Lemmas.Rename
 
 namespace NadaVerif
 
@@ -62,6 +63,10 @@ def AstOp.shift (k : Nat) : AstOp → AstOp
   | .ntupleAcc i s ty => .ntupleAcc i (sh k s) ty
   | .objectAcc key s ty => .objectAcc key (sh k s) ty
 
+def AstOp.isLit : AstOp → Bool
+  | .literal .. => true
+  | _ => false
+
 /-- forget the literal's position in the process-wide table -/
 def AstOp.eraseIdx : AstOp → AstOp
   | .literal v _ ty => .literal v 0 ty
@@ -75,10 +80,23 @@ open NadaVerif
 def eraseE (e : Id × AstOp) : Id × AstOp := (e.1, e.2.eraseIdx)
 def shiftEraseE (k : Nat) (e : Id × AstOp) : Id × AstOp := (sh k e.1, (e.2.shift k).eraseIdx)
 
-/-- `t` is `s` shifted by `k` on top of `hist`, up to literal names -/
+/-- the literal renaming two literal tables induce: index `i` of `ls` goes to the index of the same key in `lt`
+(indices outside `ls` go beyond `lt`, so that the map is injective everywhere) -/
+def mkLit (ls lt : List String) (i : Nat) : Nat :=
+  match ls[i]? with
+  | some key => lt.idxOf key
+  | none => lt.length + i
+
+/-- the renaming an earlier history induces: ids shifted, literal names by key -/
+def shiftRen (k : Nat) (ls lt : List String) : Ren := ⟨sh k, mkLit ls lt⟩
+
+/-- `t` is `s` renamed on top of `hist`: ids shifted by `k`, every literal under the name its key has in `t`'s table -/
 structure Rel (k : Nat) (hist : List (Id × AstOp)) (s t : St) : Prop where
   counter : t.counter = s.counter + k
-  ops : t.ops.map eraseE = s.ops.map (shiftEraseE k) ++ hist.map eraseE
+  ops : t.ops = s.ops.map (renE (shiftRen k s.lits t.lits)) ++ hist
+  nodup : s.lits.Nodup
+  sub : ∀ key ∈ s.lits, key ∈ t.lits
+  inv : ∀ e ∈ s.ops, ∀ v i ty, e.2 = AstOp.literal v i ty → i < s.lits.length
 
 /-- the two computations behave alike from related states -/
 def SimAt {α β : Type} (R : St → St → Prop) (Q : α → β → Prop) (x : M α) (y : M β) (s t : St) : Prop :=
@@ -138,45 +156,158 @@ open NadaVerif
 
 variable {k : Nat} {hist : List (Id × AstOp)}
 
+theorem ren_nonlit (op : AstOp) (l : Nat → Nat) (h : op.isLit = false) : op.ren ⟨sh k, l⟩ = op.shift k := by
+  cases op <;> simp_all [AstOp.ren, AstOp.shift, AstOp.isLit]
+
+theorem erase_nonlit {op op' : AstOp} (h : op.isLit = false) (he : op'.eraseIdx = (op.shift k).eraseIdx) :
+    op' = op.shift k := by
+  cases op <;> cases op' <;> simp_all [AstOp.shift, AstOp.eraseIdx, AstOp.isLit]
+
 theorem Sim.alloc : Sim (Rel k hist) (fun a b => b = sh k a) alloc alloc := by
   intro s t hR
   simp only [SimAt, alloc, ExceptT.run, StateT.run, Bind.bind, ExceptT.bind, ExceptT.mk, StateT.bind, ExceptT.bindCont, get, getThe,
     MonadStateOf.get, liftM, monadLift, MonadLift.monadLift, ExceptT.lift, StateT.get, Pure.pure, StateT.pure, set, MonadStateOf.set,
     StateT.set, Functor.map, StateT.map, ExceptT.pure]
-  refine ⟨?_, ⟨?_, hR.ops⟩⟩
+  refine ⟨?_, ⟨?_, hR.ops, hR.nodup, hR.sub, hR.inv⟩⟩
   · rw [hR.counter]; simp only [sh]; omega
   · simp only [hR.counter]; omega
 
-theorem Sim.put {i j : Id} {op op' : AstOp} (hi : j = sh k i) (hop : op'.eraseIdx = (op.shift k).eraseIdx) :
+/-- storing a record that is not a literal -/
+theorem Sim.put {i j : Id} {op op' : AstOp} (hi : j = sh k i) (hop : op'.eraseIdx = (op.shift k).eraseIdx)
+    (hnl : op.isLit = false := by rfl) :
     Sim (Rel k hist) (fun _ _ => True) (put i op) (put j op') := by
   intro s t hR
   subst hi
+  have hop' := erase_nonlit hnl hop
+  subst hop'
   simp only [SimAt, put, modify, modifyGet, MonadStateOf.modifyGet, ExceptT.run, StateT.run, liftM, monadLift, MonadLift.monadLift,
     ExceptT.lift, StateT.modifyGet, Functor.map, StateT.map, Pure.pure, StateT.pure, ExceptT.mk, Bind.bind, StateT.bind]
-  refine ⟨trivial, ⟨hR.counter, ?_⟩⟩
-  simp only [List.map_cons, List.cons_append, hR.ops, eraseE, shiftEraseE, hop]
+  refine ⟨trivial, ⟨hR.counter, ?_, hR.nodup, hR.sub, ?_⟩⟩
+  · simp only [List.map_cons, List.cons_append, hR.ops, renE, shiftRen, ren_nonlit _ _ hnl]
+  · intro e he v n ty heq
+    simp only [List.mem_cons] at he
+    rcases he with rfl | he
+    · simp only at heq; subst heq; simp [AstOp.isLit] at hnl
+    · exact hR.inv e he v n ty heq
+
+/-! ### the literal table -/
+
+theorem idxOf?_eq (l : List String) (a : String) : l.idxOf? a = if a ∈ l then some (l.idxOf a) else none := by
+  induction l with
+  | nil => simp
+  | cons x xs ih =>
+    simp only [List.idxOf?_cons, List.idxOf_cons, ih, List.mem_cons]
+    by_cases h : x = a
+    · simp [h]
+    · have h' : ¬ a = x := fun e => h e.symm
+      have hb : (x == a) = false := by simp [h]
+      simp [h', hb]
+
+/-- `LiteralASTOperation.__init__` on the table alone: the key's index, and the table afterwards -/
+def litStep (ls : List String) (key : String) : Nat × List String :=
+  if key ∈ ls then (ls.idxOf key, ls) else (ls.length, ls ++ [key])
+
+theorem litStep_get (ls : List String) (key : String) : (litStep ls key).2[(litStep ls key).1]? = some key := by
+  unfold litStep
+  split
+  · rename_i h
+    have := List.idxOf_lt_length_of_mem h
+    simp [List.getElem?_eq_getElem this]
+  · simp
+
+theorem litStep_idx (ls : List String) (key : String) : (litStep ls key).2.idxOf key = (litStep ls key).1 := by
+  unfold litStep
+  split
+  · rfl
+  · rename_i h
+    simp [List.idxOf_append, h]
+
+theorem litStep_mem (ls : List String) (key : String) : key ∈ (litStep ls key).2 := by
+  unfold litStep; split <;> simp [*]
+
+theorem litStep_cases (ls : List String) (key : String) :
+    (litStep ls key).2 = ls ∨ (key ∉ ls ∧ (litStep ls key).2 = ls ++ [key]) := by
+  unfold litStep; split <;> simp [*]
+
+theorem litStep_lt (ls : List String) (key : String) : (litStep ls key).1 < (litStep ls key).2.length := by
+  have := litStep_get ls key
+  exact (List.getElem?_eq_some_iff.mp this).1
 
 theorem litIndex_run (key : String) (s : St) :
-    ∃ i l, (litIndex key).run.run s = (.ok i, { s with lits := l }) := by
-  unfold litIndex
-  cases hs : s.lits.idxOf? key with
-  | some i =>
-    exact ⟨i, s.lits, by
-      simp [ExceptT.run, StateT.run, bind, ExceptT.bind, ExceptT.mk, StateT.bind, ExceptT.bindCont, get, getThe, MonadStateOf.get,
-        liftM, monadLift, MonadLift.monadLift, ExceptT.lift, StateT.get, pure, StateT.pure, ExceptT.pure, Functor.map, StateT.map, hs]⟩
-  | none =>
-    exact ⟨s.lits.length, s.lits ++ [key], by
-      simp [ExceptT.run, StateT.run, bind, ExceptT.bind, ExceptT.mk, StateT.bind, ExceptT.bindCont, get, getThe, MonadStateOf.get,
-        liftM, monadLift, MonadLift.monadLift, ExceptT.lift, StateT.get, pure, StateT.pure, ExceptT.pure, Functor.map, StateT.map, hs,
-        set, MonadStateOf.set, StateT.set]⟩
+    (litIndex key).run.run s = (.ok (litStep s.lits key).1, { s with lits := (litStep s.lits key).2 }) := by
+  unfold litIndex litStep
+  simp only [idxOf?_eq]
+  by_cases hm : key ∈ s.lits
+  · simp [hm, ExceptT.run, StateT.run, bind, ExceptT.bind, ExceptT.mk, StateT.bind, ExceptT.bindCont, get, getThe, MonadStateOf.get,
+      liftM, monadLift, MonadLift.monadLift, ExceptT.lift, StateT.get, pure, StateT.pure, ExceptT.pure, Functor.map, StateT.map]
+  · simp [hm, ExceptT.run, StateT.run, bind, ExceptT.bind, ExceptT.mk, StateT.bind, ExceptT.bindCont, get, getThe, MonadStateOf.get,
+      liftM, monadLift, MonadLift.monadLift, ExceptT.lift, StateT.get, pure, StateT.pure, ExceptT.pure, Functor.map, StateT.map,
+      set, MonadStateOf.set, StateT.set]
 
-theorem Sim.litIndex (key : String) : Sim (Rel k hist) (fun _ _ => True) (litIndex key) (litIndex key) := by
-  intro s t hR
-  obtain ⟨i, l, hs⟩ := litIndex_run key s
-  obtain ⟨j, l', ht⟩ := litIndex_run key t
-  unfold SimAt
-  rw [hs, ht]
-  exact ⟨trivial, ⟨hR.counter, hR.ops⟩⟩
+/-- growing both tables by the same key leaves the renaming of the old indices alone -/
+theorem mkLit_stable (ls lt : List String) (key : String) (hsub : ∀ x ∈ ls, x ∈ lt) (i : Nat) (hi : i < ls.length) :
+    mkLit (litStep ls key).2 (litStep lt key).2 i = mkLit ls lt i := by
+  have h1 : (litStep ls key).2[i]? = ls[i]? := by
+    rcases litStep_cases ls key with h | ⟨_, h⟩ <;> rw [h]
+    exact List.getElem?_append_left hi
+  unfold mkLit
+  rw [h1, List.getElem?_eq_getElem hi]
+  simp only
+  have hm : ls[i] ∈ lt := hsub _ (List.getElem_mem hi)
+  rcases litStep_cases lt key with h | ⟨_, h⟩ <;> rw [h]
+  rw [List.idxOf_append, if_pos hm]
+
+theorem mkLit_new (ls lt : List String) (key : String) :
+    mkLit (litStep ls key).2 (litStep lt key).2 (litStep ls key).1 = (litStep lt key).1 := by
+  unfold mkLit
+  rw [litStep_get]
+  exact litStep_idx lt key
+
+theorem mkLit_inj (ls lt : List String) (hn : ls.Nodup) (hsub : ∀ x ∈ ls, x ∈ lt) (a b : Nat)
+    (h : mkLit ls lt a = mkLit ls lt b) : a = b := by
+  unfold mkLit at h
+  by_cases ha : a < ls.length
+  · by_cases hb : b < ls.length
+    · rw [List.getElem?_eq_getElem ha, List.getElem?_eq_getElem hb] at h
+      simp only at h
+      have ma : ls[a] ∈ lt := hsub _ (List.getElem_mem ha)
+      have mb : ls[b] ∈ lt := hsub _ (List.getElem_mem hb)
+      have la := List.idxOf_lt_length_of_mem ma
+      have e1 : lt[lt.idxOf ls[a]] = ls[a] := List.getElem_idxOf la
+      have lb := List.idxOf_lt_length_of_mem mb
+      have e2 : lt[lt.idxOf ls[b]] = ls[b] := List.getElem_idxOf lb
+      have : ls[a] = ls[b] := by rw [← e1, ← e2]; simp only [h]
+      exact (List.getElem_inj hn).mp this
+    · rw [List.getElem?_eq_getElem ha, List.getElem?_eq_none (by omega)] at h
+      simp only at h
+      have := List.idxOf_lt_length_of_mem (hsub _ (List.getElem_mem ha))
+      omega
+  · by_cases hb : b < ls.length
+    · rw [List.getElem?_eq_none (by omega), List.getElem?_eq_getElem hb] at h
+      simp only at h
+      have := List.idxOf_lt_length_of_mem (hsub _ (List.getElem_mem hb))
+      omega
+    · rw [List.getElem?_eq_none (by omega), List.getElem?_eq_none (by omega)] at h
+      simp only at h
+      omega
+
+theorem shiftRen_inj (ls lt : List String) (hn : ls.Nodup) (hsub : ∀ x ∈ ls, x ∈ lt) : Ren.Inj (shiftRen k ls lt) :=
+  ⟨fun a b h => by simp only [shiftRen, sh] at h; omega, mkLit_inj ls lt hn hsub⟩
+
+/-- records whose literal indices lie inside the old table are renamed alike by the old and the grown renaming -/
+theorem map_renE_stable (ops : List (Id × AstOp)) (ls lt : List String) (key : String) (hsub : ∀ x ∈ ls, x ∈ lt)
+    (hinv : ∀ e ∈ ops, ∀ v i ty, e.2 = AstOp.literal v i ty → i < ls.length) :
+    ops.map (renE (shiftRen k (litStep ls key).2 (litStep lt key).2)) = ops.map (renE (shiftRen k ls lt)) := by
+  apply List.map_congr_left
+  intro e he
+  obtain ⟨id, op⟩ := e
+  simp only [renE, Prod.mk.injEq]
+  refine ⟨rfl, ?_⟩
+  cases op with
+  | literal v i ty =>
+    simp only [AstOp.ren, shiftRen, AstOp.literal.injEq, true_and, and_true]
+    exact mkLit_stable ls lt key hsub i (hinv _ he v i ty rfl)
+  | _ => simp [AstOp.ren, shiftRen]
 
 theorem Sim.liftE {α} {R : St → St → Prop} (e : Except Err α) : Sim R (fun a b => b = a) (liftE e) (liftE e) := by
   cases e with
@@ -223,14 +354,56 @@ end
 theorem child_shift (k : Nat) (v : Val) : (v.shift k).child = v.child.map (sh k) := by
   cases v <;> simp [Val.shift, Val.child]
 
+theorem mkLiteral_run (base : Base) (v : LitVal) (s : St) :
+    (mkLiteral base v).run.run s =
+      (.ok (.scalar ⟨.const, base⟩ (some (s.counter + 1)) (some v)),
+       { counter := s.counter + 1,
+         ops := (s.counter + 1, .literal v.str (litStep s.lits (litKey v ⟨.const, base⟩)).1 (.scalar (STy.mirName ⟨.const, base⟩))) :: s.ops,
+         lits := (litStep s.lits (litKey v ⟨.const, base⟩)).2 }) := by
+  have hl := litIndex_run (litKey v ⟨.const, base⟩) { s with counter := s.counter + 1 }
+  simp only [ExceptT.run, StateT.run] at hl
+  simp only [mkLiteral, alloc, put, modify, modifyGet, MonadStateOf.modifyGet, ExceptT.run, StateT.run, Bind.bind, ExceptT.bind,
+    ExceptT.mk, StateT.bind, ExceptT.bindCont, get, getThe, MonadStateOf.get, liftM, monadLift, MonadLift.monadLift, ExceptT.lift,
+    StateT.get, Pure.pure, StateT.pure, set, MonadStateOf.set, StateT.set, Functor.map, StateT.map, ExceptT.pure, StateT.modifyGet, hl]
+
 theorem mkLiteral_sim (base : Base) (v : LitVal) :
     Sim (Rel k hist) (fun a b => b = a.shift k) (mkLiteral base v) (mkLiteral base v) := by
-  unfold mkLiteral
-  refine Sim.bind Sim.alloc (fun a b hab => ?_)
-  subst hab
-  refine Sim.bind (Sim.litIndex _) (fun i j _ => ?_)
-  refine Sim.bind (Sim.put rfl (by simp [AstOp.shift, AstOp.eraseIdx])) (fun _ _ _ => ?_)
-  exact Sim.pure (by simp [Val.shift])
+  intro s t hR
+  unfold SimAt
+  rw [mkLiteral_run, mkLiteral_run]
+  refine ⟨by simp [Val.shift, hR.counter, sh]; exact Nat.add_right_comm _ _ _, ⟨by simp only [hR.counter]; omega, ?_, ?_, ?_, ?_⟩⟩
+  · have hm := map_renE_stable (k := k) s.ops s.lits t.lits (litKey v ⟨.const, base⟩) hR.sub hR.inv
+    simp only [List.map_cons, List.cons_append]
+    rw [hm, hR.ops]
+    simp only [renE, AstOp.ren, shiftRen, mkLit_new, hR.counter, sh]
+    congr 2
+    exact Nat.add_right_comm _ _ _
+  · rcases litStep_cases s.lits (litKey v ⟨.const, base⟩) with h | ⟨hn, h⟩ <;> rw [h]
+    · exact hR.nodup
+    · exact List.nodup_append.mpr ⟨hR.nodup, by simp,
+        fun a ha b hb => by simp only [List.mem_singleton] at hb; subst hb; exact fun e => hn (e ▸ ha)⟩
+  · intro key hk
+    rcases litStep_cases s.lits (litKey v ⟨.const, base⟩) with h | ⟨_, h⟩ <;> rw [h] at hk
+    · rcases litStep_cases t.lits (litKey v ⟨.const, base⟩) with h2 | ⟨_, h2⟩ <;> rw [h2]
+      · exact hR.sub _ hk
+      · exact List.mem_append_left _ (hR.sub _ hk)
+    · rcases List.mem_append.mp hk with hk | hk
+      · rcases litStep_cases t.lits (litKey v ⟨.const, base⟩) with h2 | ⟨_, h2⟩ <;> rw [h2]
+        · exact hR.sub _ hk
+        · exact List.mem_append_left _ (hR.sub _ hk)
+      · simp only [List.mem_singleton] at hk
+        subst hk
+        exact litStep_mem _ _
+  · intro e he v' n ty heq
+    simp only [List.mem_cons] at he
+    rcases he with rfl | he
+    · simp only [AstOp.literal.injEq] at heq
+      obtain ⟨_, rfl, _⟩ := heq
+      exact litStep_lt _ _
+    · have := hR.inv e he v' n ty heq
+      rcases litStep_cases s.lits (litKey v ⟨.const, base⟩) with h | ⟨_, h⟩ <;> rw [h]
+      · exact this
+      · simp only [List.length_append, List.length_singleton]; omega
 
 end NadaVerif.Lemmas
 
@@ -240,7 +413,7 @@ open NadaVerif
 variable {k : Nat} {hist : List (Id × AstOp)}
 
 theorem scalarResult_sim (out : Out) (foldE : Option (Py.PyExpr × Base)) (l r : Option LitVal) (mkOp mkOp' : MTy → AstOp)
-    (hmk : ∀ ty, (mkOp' ty).eraseIdx = ((mkOp ty).shift k).eraseIdx) :
+    (hmk : ∀ ty, (mkOp' ty).eraseIdx = ((mkOp ty).shift k).eraseIdx) (hnl : ∀ ty, (mkOp ty).isLit = false) :
     Sim (Rel k hist) (fun a b => b = a.shift k) (scalarResult out foldE l r mkOp) (scalarResult out foldE l r mkOp') := by
   unfold scalarResult
   cases out with
@@ -260,7 +433,7 @@ theorem scalarResult_sim (out : Out) (foldE : Option (Py.PyExpr × Base)) (l r :
       simp only
       refine Sim.bind Sim.alloc (fun a b hab => ?_)
       subst hab
-      refine Sim.bind (Sim.put rfl (hmk _)) (fun _ _ _ => ?_)
+      refine Sim.bind (Sim.put rfl (hmk _) (hnl _)) (fun _ _ _ => ?_)
       exact Sim.pure (by simp [Val.shift])
 
 def shiftRegs (k : Nat) (regs : List RVal) : List RVal := regs.map (RVal.shift k)
@@ -321,7 +494,7 @@ theorem es_bin (regs : List RVal) (frames : List Frame) (op a b) : ExecSim k his
   subst hxy
   obtain ⟨tb, cb, lb⟩ := x
   simp only
-  refine Sim.bind (scalarResult_sim _ _ _ _ _ _ (by intro ty; simp [AstOp.shift])) (fun v w hvw => ?_)
+  refine Sim.bind (scalarResult_sim _ _ _ _ _ _ (by intro ty; simp [AstOp.shift]) (by intro ty; rfl)) (fun v w hvw => ?_)
   subst hvw
   exact one_sim frames v
 
@@ -340,7 +513,7 @@ macro_rules
 syntax "sim_result" : tactic
 macro_rules
   | `(tactic| sim_result) =>
-    `(tactic| (refine Sim.bind (scalarResult_sim _ _ _ _ _ _ (by intro ty; simp [AstOp.shift])) (fun v w hvw => ?_); subst hvw;
+    `(tactic| (refine Sim.bind (scalarResult_sim _ _ _ _ _ _ (by intro ty; simp [AstOp.shift]) (by intro ty; rfl)) (fun v w hvw => ?_); subst hvw;
                exact one_sim _ v))
 
 theorem es_nop (regs : List RVal) (frames : List Frame) : ExecSim k hist regs frames .nop := by
@@ -701,13 +874,13 @@ open NadaVerif
 variable {k : Nat} {hist : List (Id × AstOp)}
 
 theorem genAccessor_sim (m : Val) (id : Id) (mk mk' : MTy → AstOp)
-    (hmk : ∀ ty, (mk' ty).eraseIdx = ((mk ty).shift k).eraseIdx) :
+    (hmk : ∀ ty, (mk' ty).eraseIdx = ((mk ty).shift k).eraseIdx) (hnl : ∀ ty, (mk ty).isLit = false) :
     Sim (Rel k hist) (fun a b => b = a.shift k) (genAccessor m id mk) (genAccessor (m.shift k) (sh k id) mk') := by
   cases m with
   | scalar t c l =>
     simp only [genAccessor, Val.shift]
     refine Sim.ite (Sim.pure (by simp [Val.shift])) ?_
-    refine Sim.bind (Sim.put rfl (hmk _)) (fun _ _ _ => ?_)
+    refine Sim.bind (Sim.put rfl (hmk _) (hnl _)) (fun _ _ _ => ?_)
     exact Sim.pure (by simp [Val.shift])
   | tuple l r c => simp only [genAccessor, Val.shift]; exact Sim.throw _
   | array e n c =>
@@ -716,7 +889,7 @@ theorem genAccessor_sim (m : Val) (id : Id) (mk mk' : MTy → AstOp)
     simp only [Val.shift] at this
     rw [this, toMir_shift]
     sim_liftE
-    refine Sim.bind (Sim.put rfl (hmk _)) (fun _ _ _ => ?_)
+    refine Sim.bind (Sim.put rfl (hmk _) (hnl _)) (fun _ _ _ => ?_)
     exact Sim.pure rfl
   | ntuple vs c =>
     simp only [genAccessor, Val.shift]
@@ -724,7 +897,7 @@ theorem genAccessor_sim (m : Val) (id : Id) (mk mk' : MTy → AstOp)
     simp only [Val.shift] at this
     rw [this, toMir_shift]
     sim_liftE
-    refine Sim.bind (Sim.put rfl (hmk _)) (fun _ _ _ => ?_)
+    refine Sim.bind (Sim.put rfl (hmk _) (hnl _)) (fun _ _ _ => ?_)
     exact Sim.pure rfl
   | object fs c =>
     simp only [genAccessor, Val.shift]
@@ -732,7 +905,7 @@ theorem genAccessor_sim (m : Val) (id : Id) (mk mk' : MTy → AstOp)
     simp only [Val.shift] at this
     rw [this, toMir_shift]
     sim_liftE
-    refine Sim.bind (Sim.put rfl (hmk _)) (fun _ _ _ => ?_)
+    refine Sim.bind (Sim.put rfl (hmk _) (hnl _)) (fun _ _ _ => ?_)
     exact Sim.pure rfl
 
 end NadaVerif.Lemmas
@@ -760,7 +933,7 @@ theorem es_ntupleGet (regs : List RVal) (frames : List Frame) (r i) : ExecSim k 
       | none => exact Sim.throw _
       | some m =>
         simp only [Option.map]
-        refine Sim.bind (genAccessor_sim m _ _ _ (by intro ty; simp [AstOp.shift])) (fun v w hvw => ?_)
+        refine Sim.bind (genAccessor_sim m _ _ _ (by intro ty; simp [AstOp.shift]) (by intro ty; rfl)) (fun v w hvw => ?_)
         subst hvw
         exact one_sim _ v
   | _ => exact Sim.throw _
@@ -785,7 +958,7 @@ theorem es_objectGet (regs : List RVal) (frames : List Frame) (r key) : ExecSim 
         obtain ⟨n, m⟩ := p
         simp only [Option.map]
         sim_alloc
-        refine Sim.bind (genAccessor_sim m _ _ _ (by intro ty; simp [AstOp.shift])) (fun v w hvw => ?_)
+        refine Sim.bind (genAccessor_sim m _ _ _ (by intro ty; simp [AstOp.shift]) (by intro ty; rfl)) (fun v w hvw => ?_)
         subst hvw
         exact one_sim _ v
   | _ => exact Sim.throw _
@@ -1084,47 +1257,25 @@ variable {k : Nat} {hist : List (Id × AstOp)}
 theorem sh_inj {k a b : Nat} : sh k a = sh k b ↔ a = b := by
   unfold sh; omega
 
-theorem find_erase (l : List (Id × AstOp)) (j : Id) :
-    (l.map eraseE).find? (·.1 == j) = (l.find? (·.1 == j)).map eraseE := by
-  rw [List.find?_map]; rfl
-
-theorem find_shift (l : List (Id × AstOp)) (c : Id) :
-    (l.map (shiftEraseE k)).find? (·.1 == sh k c) = (l.find? (·.1 == c)).map (shiftEraseE k) := by
-  induction l with
-  | nil => rfl
-  | cons e l ih =>
-    simp only [List.map_cons, List.find?_cons]
-    have : ((shiftEraseE k e).1 == sh k c) = (e.1 == c) := by
-      simp only [shiftEraseE]
-      by_cases h : e.1 = c
-      · simp [h]
-      · have h3 : ¬ sh k e.1 = sh k c := fun hh => h (sh_inj.mp hh)
-        rw [beq_eq_false_iff_ne.mpr h, beq_eq_false_iff_ne.mpr h3]
-    rw [this]
-    cases e.1 == c with
-    | true => rfl
-    | false => exact ih
-
-/-- a record the unshifted store holds is found, shifted, in the related store — whatever the history holds -/
+/-- a record the unshifted store holds is found, renamed, in the related store — whatever the history holds -/
 theorem lookup_rel {s t : St} (hR : Rel k hist s t) (c : Id) (op : AstOp) (hs : s.lookup c = some op) :
-    (t.lookup (sh k c)).map AstOp.eraseIdx = some (op.shift k).eraseIdx := by
-  have h1 : (t.lookup (sh k c)).map AstOp.eraseIdx = ((t.ops.map eraseE).find? (·.1 == sh k c)).map (·.2) := by
-    rw [find_erase]; simp [St.lookup, eraseE, Function.comp_def]
-  rw [h1, hR.ops, List.find?_append, find_shift]
-  simp only [St.lookup, Option.map_eq_some_iff] at hs
-  obtain ⟨e, he, rfl⟩ := hs
-  rw [he]
-  simp [shiftEraseE]
+    t.lookup (sh k c) = some (op.ren (shiftRen k s.lits t.lits)) := by
+  have hinj := shiftRen_inj (k := k) s.lits t.lits hR.nodup hR.sub
+  have h1 := lookup_ren hinj s c
+  rw [hs] at h1
+  simp only [St.lookup, St.ren, Option.map, shiftRen] at h1 ⊢
+  rw [hR.ops, List.find?_append]
+  simp only [shiftRen]
+  cases hf : List.find? (fun x => x.1 == sh k c) (List.map (renE ⟨sh k, mkLit s.lits t.lits⟩) s.ops) with
+  | none => rw [hf] at h1; simp at h1
+  | some e => rw [hf] at h1; simpa using h1
 
 theorem Sim.get {R : St → St → Prop} : Sim R (fun a b => R a b) (get : M St) (get : M St) := by
   intro s t hR
   simpa [SimAt, ExceptT.run, StateT.run, get, getThe, MonadStateOf.get, liftM, monadLift, MonadLift.monadLift, ExceptT.lift, StateT.get,
     Functor.map, StateT.map, ExceptT.mk, Pure.pure, StateT.pure, Bind.bind, StateT.bind] using ⟨hR, hR⟩
 
-theorem eraseIdx_input {op : AstOp} {n p d ty} (h : op.eraseIdx = .input n p d ty) : op = .input n p d ty := by
-  cases op <;> simp_all [AstOp.eraseIdx]
-
-theorem has_lookup {ops : List (Id × AstOp)} {c : Id} (h : Has ops c) (cnt : Nat) (l : List String) :
+theorem has_lookup_st {ops : List (Id × AstOp)} {c : Id} (h : Has ops c) (cnt : Nat) (l : List String) :
     ∃ op, (St.mk cnt ops l).lookup c = some op := by
   obtain ⟨op, hm⟩ := h
   cases hf : ops.find? (·.1 == c) with
@@ -1135,34 +1286,28 @@ theorem has_lookup {ops : List (Id × AstOp)} {c : Id} (h : Has ops c) (cnt : Na
 
 theorem lookup_input {s t : St} (hR : Rel k hist s t) (c : Id) (hc : Has s.ops c) (n p d ty) :
     s.lookup c = some (.input n p d ty) ↔ t.lookup (sh k c) = some (.input n p d ty) := by
-  obtain ⟨op, hs⟩ := has_lookup hc s.counter s.lits
+  obtain ⟨op, hs⟩ := has_lookup_st hc s.counter s.lits
   have hs : s.lookup c = some op := hs
   have h := lookup_rel hR c op hs
-  cases ht : t.lookup (sh k c) with
-  | none => rw [ht] at h; simp at h
-  | some op' =>
-    rw [ht] at h
-    simp only [Option.map, Option.some.injEq] at h
-    rw [hs]
-    constructor
-    · intro he
-      simp only [Option.some.injEq] at he
-      subst he
-      simp only [AstOp.shift, AstOp.eraseIdx] at h
-      rw [eraseIdx_input h]
-    · intro he
-      simp only [Option.some.injEq] at he
-      subst he
-      cases op <;> simp_all [AstOp.shift, AstOp.eraseIdx]
+  rw [h, hs]
+  constructor
+  · intro he
+    simp only [Option.some.injEq] at he
+    subst he
+    rfl
+  · intro he
+    simp only [Option.some.injEq] at he
+    cases op <;> simp_all [AstOp.ren]
 
 /-- the relation for the one command that reads the store: the registers' ids are stored on the unshifted side -/
 def RelS (k : Nat) (hist : List (Id × AstOp)) (regs : List RVal) (s t : St) : Prop :=
   Rel k hist s t ∧ RegsSto s.ops regs
 
-theorem putS_sim {regs : List RVal} {i j : Id} {op op' : AstOp} (hi : j = sh k i) (hop : op'.eraseIdx = (op.shift k).eraseIdx) :
+theorem putS_sim {regs : List RVal} {i j : Id} {op op' : AstOp} (hi : j = sh k i) (hop : op'.eraseIdx = (op.shift k).eraseIdx)
+    (hnl : op.isLit = false) :
     Sim (RelS k hist regs) (fun _ _ => True) (put i op) (put j op') := by
   intro s t hR
-  have := Sim.put (hist := hist) hi hop s t hR.1
+  have := Sim.put (hist := hist) hi hop hnl s t hR.1
   simp only [SimAt, put, modify, modifyGet, MonadStateOf.modifyGet, ExceptT.run, StateT.run, liftM, monadLift, MonadLift.monadLift,
     ExceptT.lift, StateT.modifyGet, Functor.map, StateT.map, Pure.pure, StateT.pure, ExceptT.mk, Bind.bind, StateT.bind] at this ⊢
   refine ⟨trivial, this.2, ?_⟩
@@ -1200,7 +1345,7 @@ theorem es_arrayOf (regs : List RVal) (frames : List Frame) (r size) :
         · rename_i name pn doc ty0 hs
           rw [(lookup_input hR.1 c hhas name pn doc ty0).mp hs]
           simp only
-          refine Sim.bind (putS_sim rfl (by simp [AstOp.shift])) (fun _ _ _ => ?_)
+          refine Sim.bind (putS_sim rfl (by simp [AstOp.shift]) rfl) (fun _ _ _ => ?_)
           sim_done
         · rename_i hno
           split
